@@ -35,7 +35,7 @@ func verifC02Pattern() ([]byte, bool) {
 	pat := verifrt.Bytes("pat", n)
 	for _, c := range pat {
 		ok := verifrt.Or(c == 'n', verifrt.Or(c == 'e', verifrt.Or(c == 'd', verifrt.Or(c == 'l', verifrt.Or(c == 'N', verifrt.Or(c == 'E', c == 'q'))))))
-		ok = verifrt.Or(ok, verifrt.Or(c == 'f', verifrt.Or(c == 'o', verifrt.Or(c == 'b', verifrt.Or(c == 'a', verifrt.Or(c == 'r', verifrt.Or(c == 'F', c == ' ')))))))
+		ok = verifrt.Or(ok, verifrt.Or(c == 'f', verifrt.Or(c == 'o', verifrt.Or(c == 'b', verifrt.Or(c == 'a', verifrt.Or(c == 'r', verifrt.Or(c == 'F', verifrt.Or(c == ' ', c == '\n'))))))))
 		verifrt.Assume(ok)
 	}
 	return pat, verifrt.Bool("case")
@@ -72,6 +72,13 @@ func H_C02_ranges() {
 	d := verifSimpleShard(verifRepo(1, "r1", "main"), verifC01Corpus)
 	pat, caseSensitive := verifC02Pattern()
 	chunks := verifrt.Bool("chunks")
+	if !chunks {
+		// line mode reports a match that spans lines as one piece per line (documented); the
+		// whole-range comparison below is for single-line patterns there
+		for _, c := range pat {
+			verifrt.Assume(c != '\n')
+		}
+	}
 	q := &query.Substring{Pattern: string(pat), CaseSensitive: caseSensitive, Content: true}
 	res, err := d.Search(context.Background(), q, &zoekt.SearchOptions{ChunkMatches: chunks})
 	verifrt.Assert(err == nil, "search succeeds")
@@ -124,4 +131,75 @@ func H_C02_twin() {
 	d := verifSimpleShard(verifRepo(1, "r1", "main"), verifC01Corpus)
 	res, _ := d.Search(context.Background(), &query.Substring{Pattern: "needle"}, &zoekt.SearchOptions{})
 	verifrt.Assert(len(res.Files) == 77, "twin")
+}
+
+// H_C02_gather (kernel): the overlap filter of gatherMatches on symbolic candidates of up to three
+// atoms under an or (each atom's candidates sorted and disjoint, as its producer guarantees; offsets
+// and sizes symbolic; file-name flag per atom symbolic). The result is sorted by (file-name first,
+// offset), pairwise non-overlapping within a kind, consists of input candidates only, and is
+// complete in the greedy sense: a dropped candidate overlaps a kept one of its kind.
+func H_C02_gather() {
+	natoms := verifrt.Concretize(verifrt.IntRange("atoms", 1, 3))
+	d := &indexData{}
+	or := &orMatchTree{}
+	known := map[matchTree]bool{}
+	var all []*candidateMatch
+	for a := 0; a < natoms; a++ {
+		sm := &substrMatchTree{query: &query.Substring{Pattern: "x"}, fileName: verifrt.Bool("fileName")}
+		n := verifrt.Concretize(verifrt.IntRange("cands", 1, verifrt.Param("candsPerAtom", 2, 2)))
+		prevEnd := uint32(0)
+		for i := 0; i < n; i++ {
+			off, sz := verifrt.U32("off"), verifrt.U32("size")
+			verifrt.Assume(off <= 40 && sz >= 1 && sz <= 12 && off >= prevEnd)
+			prevEnd = off + sz
+			c := &candidateMatch{byteOffset: off, byteMatchSz: sz, fileName: sm.fileName}
+			sm.current = append(sm.current, c)
+			all = append(all, c)
+		}
+		or.children = append(or.children, sm)
+		known[sm] = true
+	}
+	known[or] = true
+	res := d.gatherMatches(0, or, known)
+	verifrt.Observe("kept", len(res))
+	verifrt.Assert(len(res) >= 1 && len(res) <= len(all), "the result is a non-empty selection of the candidates")
+	kept := map[*candidateMatch]bool{}
+	for i, c := range res {
+		isInput := false
+		for _, in := range all {
+			if in == c {
+				isInput = true
+			}
+		}
+		verifrt.Assert(isInput, "every reported match is a candidate of some atom")
+		verifrt.Assert(!kept[c], "no candidate is reported twice")
+		kept[c] = true
+		if i > 0 {
+			p := res[i-1]
+			if p.fileName == c.fileName {
+				verifrt.Assert(p.byteOffset <= c.byteOffset, "matches are ordered by offset")
+			} else {
+				verifrt.Assert(p.fileName && !c.fileName, "file-name matches come first")
+			}
+		}
+		for j := 0; j < i; j++ {
+			p := res[j]
+			if p.fileName == c.fileName {
+				verifrt.Assert(verifrt.Or(p.byteOffset+p.byteMatchSz <= c.byteOffset, c.byteOffset+c.byteMatchSz <= p.byteOffset), "reported matches of one kind never overlap")
+			}
+		}
+	}
+	for _, in := range all {
+		if kept[in] {
+			continue
+		}
+		overlapsKept := false
+		for _, c := range res {
+			if c.fileName == in.fileName {
+				overlapsKept = verifrt.Or(overlapsKept, verifrt.And(c.byteOffset < in.byteOffset+in.byteMatchSz, in.byteOffset < c.byteOffset+c.byteMatchSz))
+			}
+		}
+		verifrt.Assert(overlapsKept, "a candidate is dropped only because it overlaps a reported match")
+	}
+	verifrt.Reach("returned")
 }
